@@ -5,7 +5,7 @@ Real code executed (through the cloned Grid's public properties): Grid.edge_node
 close_face_nodes, _build_edge_node_connectivity, _build_face_edge_connectivity, _build_n_nodes_per_face."""
 import z3
 import numpy as np
-from symex import core as sc, symnp
+from symex import core as sc, symnp, symxr
 from symex.core import mk
 from symex.runner import Obligation, world
 from . import common as C
@@ -106,6 +106,75 @@ def make(oid, n_face, n_max, n_node, order="A", sizes=None, fixed=None, tiers=("
                       bounds=f"n_face={n_face}, 3<=corners<={n_max} (all padding layouts), node ids<{n_node}, any numbering/start corner; unique={unique_mode}",
                       stubs=[], assumptions=["face-node table in standard form, corners of one face pairwise distinct"],
                       tiers=tiers, validate=validate, cost=cost, timeout_s=3000, query_timeout_s=1500)
+
+
+def make_supplied_edges(oid, tiers=("quick", "thorough")):
+    """the source supplies edge_node_connectivity (its own numbering and orientation of the edges) but no face_edge_connectivity"""
+    ROWS = [[0, 1, 2, 3], [1, 4, 2, F]]
+    n_node = 5
+    lon, lat = C.default_lonlat(n_node)
+    REF = [(0, 1), (1, 2), (2, 3), (3, 0), (1, 4), (4, 2)]
+    PERMS = [(0, 1, 2, 3, 4, 5), (5, 4, 3, 2, 1, 0), (2, 0, 5, 1, 4, 3), (3, 5, 1, 0, 2, 4), (1, 3, 0, 4, 5, 2)]
+
+    def setup(ctx):
+        perm = ctx.enum("perm", list(range(len(PERMS))))
+        flip = [ctx.bool(f"flip_{e}") for e in range(len(REF))]
+        return perm, flip
+
+    def table(perm_idx, flips, If):
+        rows = []
+        for pos in range(len(REF)):
+            a, b = REF[PERMS[perm_idx][pos]]
+            rows.append([If(flips[pos], b, a), If(flips[pos], a, b)])
+        return rows
+
+    def run(ctx, inp):
+        perm, flip = inp
+        pi = sc.concretize(sc.SymInt(perm.e))
+        E = table(pi, [sc.z(f) for f in flip], lambda c, x, y: z3.If(c, x, y))
+        en = symnp.SArr.new([mk(x) for r in E for x in r], (len(REF), 2), None, symnp.int64)
+        before = en.flat_list()
+        extra = {"edge_node_connectivity": symxr.DataArray(en, dims=["n_edge", "two"], attrs={"cf_role": "edge_node_connectivity", "_FillValue": F, "start_index": 0})}
+        g = C.clone_grid(symnp.array(ROWS), lon, lat, extra=extra)
+        fe = g.face_edge_connectivity.values
+        now = g.edge_node_connectivity.values
+        ctx.prove("the edges supplied by the source are reported as supplied (same numbering and orientation) after face_edge_connectivity was derived",
+                  z3.And(z3.BoolVal(now.shape_cap == (len(REF), 2)), *[sc.z(a) == sc.z(b) for a, b in zip(now.flat_list(), before)]) if now.shape_cap == (len(REF), 2) else False)
+        cl = []
+        for f, row in enumerate(ROWS):
+            c = C.face_corners(row)
+            for j in range(len(row)):
+                fej = sc.z(fe[f, j])
+                if j < len(c):
+                    a, b = c[j], c[(j + 1) % len(c)]
+                    hit = z3.Or(*[z3.And(fej == i, z3.Or(z3.And(sc.z(E[i][0]) == a, sc.z(E[i][1]) == b), z3.And(sc.z(E[i][0]) == b, sc.z(E[i][1]) == a))) for i in range(len(REF))])
+                    cl.append(hit)
+                else:
+                    cl.append(fej == F)
+        ctx.prove("face_edge_connectivity[f, j] is the index, in the supplied table, of the edge joining corner j and corner j+1", z3.And(*cl))
+        ctx.prove("n_edge is the number of supplied edges", g.n_edge == len(REF))
+
+    def replay(v):
+        import xarray as xr
+        E = table(int(v["perm"]), [bool(v[f"flip_{e}"]) for e in range(len(REF))], lambda c, x, y: x if c else y)
+        extra = {"edge_node_connectivity": xr.DataArray(np.array(E, dtype=np.intp), dims=["n_edge", "two"], attrs={"cf_role": "edge_node_connectivity", "_FillValue": F, "start_index": 0})}
+        g = C.real_grid(ROWS, lon, lat, extra=extra)
+        fe = g.face_edge_connectivity.values
+        now = g.edge_node_connectivity.values
+        if now.shape != (len(REF), 2) or not np.array_equal(now, np.array(E)):
+            return f"edge_node_connectivity supplied as {E} is reported as {now.tolist()} after face_edge_connectivity was read"
+        for f, row in enumerate(ROWS):
+            c = C.face_corners(row)
+            for j in range(len(row)):
+                if j < len(c):
+                    if fe[f, j] == F or set(E[int(fe[f, j])]) != {c[j], c[(j + 1) % len(c)]}:
+                        return f"face_edge_connectivity[{f},{j}] = {fe[f, j]} does not index the supplied edge joining nodes {c[j]},{c[(j + 1) % len(c)]} (supplied table {E})"
+                elif fe[f, j] != F:
+                    return f"face_edge_connectivity[{f},{j}] should be padding"
+        return None
+
+    return Obligation(oid, "edge tables when the source supplies edge_node_connectivity in its own numbering", setup, run, replay, exact=True, functions=FUNCS,
+                      bounds="2 faces (4+3 corners) over 5 nodes; 5 edge orders x every orientation of the 6 edges", tiers=tiers, cost=3, max_paths=2000)
 
 
 _TABLES = [
@@ -241,6 +310,8 @@ def obligations(tier):
         make("C02.grid.2f3.forder", 2, 3, 4, "A", forder=True, title="edge tables, 2 triangles, caller's table column-major in memory"),
         make("C02.grid.2f4.forder.faces", 2, 4, 6, "A", part="faces", forder=True, cost=6, tiers=("thorough",),
              title="edge tables (face rows), 2 faces x <= 4 corners, caller's table column-major in memory"),
+        make_supplied_edges("C02.supplied_edges"),
+        make("C02.grid.2f3.sparse", 2, 3, 12, "A", title="edge tables, 2 triangles, sparse node numbering (ids < 12)"),
         make_history("C02.history.2f3", 2, 3, 4),
         make("C02.grid.2f5.A", 2, 5, 8, "A", tiers=("thorough",), cost=20),
         make("C02.grid.2f4.rank", 2, 4, 6, "A", tiers=("thorough",), unique_mode="rank", cost=20,
